@@ -23,6 +23,13 @@ def mk(tag, payload=(), kids=()):
     if tag == "call" and payload and payload[0] == "list::nth_back" and len(kids) == 2 and NODES[kids[1]][0] == "int" and int(NODES[kids[1]][1][0]) == 0:
         # zero places before the last element is the last element (also after call-site substitution of the count)
         return mk("call", ("core::slice::<impl [T]>::last", "", 0), (kids[0],))
+    if tag == "op" and payload and payload[0] in ("is_some", "is_none") and len(kids) == 1 and NODES[kids[0]][0] == "call" and NODES[kids[0]][1][0] == "list::index_of":
+        # an index exists exactly when the element is in the list
+        c_ = mk("call", ("core::slice::<impl [T]>::contains", "", 0), NODES[kids[0]][2])
+        return c_ if payload[0] == "is_some" else mk("op", ("not",), (c_,))
+    if tag == "call" and payload and str(payload[0]) in ("std::option::Option::is_some", "std::option::Option::is_none") and len(kids) == 1 \
+            and NODES[kids[0]][0] == "call" and NODES[kids[0]][1][0] == "list::index_of":
+        return mk("op", ("is_some" if str(payload[0]).endswith("is_some") else "is_none",), kids)
     key = (tag, payload, kids)
     i = _TABLE.get(key)
     if i is None:
